@@ -8,12 +8,14 @@ namespace NitroVerif.C16
 open NitroVerif.Gql NitroVerif.GqlPrint
 
 /-- the lexical token a printer token stands for (layout and indentation are `Ignored`) -/
-def lex : Tok → Option GqlTokens.LTok
-  | .p s => some (.p s)
-  | .name s => some (.name s)
-  | .num s => some (.num s)
-  | .str v => some (.str v)
-  | _ => none
+def lex : Tok → List GqlTokens.LTok
+  | .p s => [.p s]
+  | .name s => [.name s]
+  | .var n => [.p "$", .name n]
+  | .int s => [.int s]
+  | .float s => [.float s]
+  | .str v => [.str v]
+  | _ => []
 
 theorem parseType_typeToks (t : GType) : GqlTokens.wfType t = true → ∀ (rest : List GqlTokens.LTok) (f : Nat),
     GqlTokens.depth t < f →
